@@ -56,6 +56,114 @@ def targets(nutrient, unit):
     return t
 
 
+
+FLAG_SETTINGS = [(True, True), (True, False), (False, True), (False, False)]
+COLLAPSE = {"get_nutrients_sum": np.sum, "get_min_all_months": np.min, "get_max_all_months": np.max}
+
+
+def labels3(f):
+    return [f.kcals_units, f.fat_units, f.protein_units]
+
+
+def set_req(s, incf=True, incp=True):
+    Food.conversions.set_nutrition_requirements(
+        kcals_daily=s["kcals_daily"], fat_daily=s["fat_daily"], protein_daily=s["protein_daily"],
+        include_fat=incf, include_protein=incp, population=s["population"])
+
+
+def audit_collapse(nutrient, u, v, x, y, s, fail, stats):
+    """multi-step history: an each-month series is collapsed to a total (sum / min / max over the months), THEN converted
+    and converted back: labels (the three *_units and the .units list), form (single value, no monthly suffix) and
+    values (collapse-then-convert == convert-then-collapse: all multipliers are positive) are checked at every step"""
+    i = IDX[nutrient]
+    for how, red in COLLAPSE.items():
+        stats["shape_cases"] += 1
+        try:
+            with quiet():
+                t = getattr(x, how)()
+                a = t.in_units(*targets(nutrient, v))
+                back = a.in_units(*targets(nutrient, base_of(u)))
+        except BaseException as e:
+            fail("conversion-rejected", f"{nutrient}: {how}() of '{u}' -> '{v}' -> back raised {classify(e)}", s,
+                 nutrient=nutrient, u=u, v=v, how=how)
+            continue
+        steps = (("collapsed", t, base_of(u)), ("collapsed then converted", a, v), ("converted back", back, base_of(u)))
+        bad = False
+        for nm, f, want in steps:
+            if f.is_list_monthly() or labels3(f)[i] != want or list(f.units) != labels3(f) or \
+                    any(sfx_of(L) != "" for L in labels3(f)):
+                fail("collapse-then-convert", f"{nutrient}: {how}() of a series in '{u}', target '{v}': the {nm} quantity is "
+                     f"{'a series' if f.is_list_monthly() else 'a single value'} labelled {labels3(f)} with units list "
+                     f"{list(f.units)}; expected a single value in '{want}'", s, nutrient=nutrient, u=u, v=v, how=how)
+                bad = True
+                break
+        if bad:
+            continue
+        want = red(np.asarray(val(y, nutrient), dtype=float))
+        if rel(val(a, nutrient), want) > TOL or rel(val(back, nutrient), val(t, nutrient)) > TOL:
+            fail("collapse-then-convert", f"{nutrient}: {how}() then '{u}' -> '{v}' gives {val(a, nutrient)}, converting the series "
+                 f"first gives {want}; back {val(back, nutrient)} vs {val(t, nutrient)}", s, nutrient=nutrient, u=u, v=v, how=how)
+
+
+def audit_small_and_partial(tables, s, fail, stats, rng):
+    """tiny magnitudes (1e-12 .. 1e-8) and quantities with zero kcals but non-zero fat / protein, under all four
+    include_fat / include_protein settings: round trip, labels, and the percent-fed anchor"""
+    for incf, incp in FLAG_SETTINGS:
+        set_req(s, incf, incp)
+        fl = {"include_fat": incf, "include_protein": incp}
+        for nutrient, table in tables.items():
+            keys = list(table.keys())
+            bare = [k for k in keys if sfx_of(k) == ""]
+            for u in keys:
+                v = bare[(keys.index(u) + (1 if incf else 2) + (1 if incp else 0)) % len(bare)]
+                if v == base_of(u):
+                    v = bare[(bare.index(v) + 1) % len(bare)]
+                mag = 10.0 ** rng.uniform(-12, -8)
+                vals = [mag * f for f in (1.0, 2.5, 0.25)][: rng.choice((1, 2, 3))]
+                stats["pairs"] += 1
+                try:
+                    with quiet():
+                        x = mkfood(nutrient, u, vals)
+                        y = x.in_units(*targets(nutrient, v))
+                        z = y.in_units(*targets(nutrient, base_of(u)))
+                except BaseException as e:
+                    fail("conversion-rejected", f"{nutrient}: tiny '{u}' -> '{v}' raised {classify(e)} ({fl})", s, nutrient=nutrient,
+                         u=u, v=v, flags=fl)
+                    continue
+                want = np.asarray(val(x, nutrient), dtype=float) * (table[v + sfx_of(u)] / table[u])
+                if rel(val(y, nutrient), want) > TOL or rel(val(z, nutrient), val(x, nutrient)) > TOL:
+                    fail("tiny-quantity", f"{nutrient}: {np.asarray(val(x, nutrient)).tolist()} '{u}' -> '{v}' gives "
+                         f"{np.asarray(val(y, nutrient)).tolist()} (multipliers give {want.tolist()}), back "
+                         f"{np.asarray(val(z, nutrient)).tolist()} ({fl})", s, nutrient=nutrient, u=u, v=v, flags=fl)
+        # zero kcals, non-zero fat and protein (and the other partial patterns), every form
+        c = Food.conversions
+        need = [c.billion_kcals_needed, c.thou_tons_fat_needed, c.thou_tons_protein_needed]
+        for pattern in ((0.0, 3.0, 5.0), (0.0, 0.0, 5.0), (0.0, 3.0, 0.0), (2.0, 0.0, 0.0), (0.0, 0.0, 0.0)):
+            for sfx in SUFFIXES:
+                stats["anchors"] += 3
+                lab = [DEFAULT["kcal"] + sfx, DEFAULT["fat"] + sfx, DEFAULT["protein"] + sfx]
+                try:
+                    with quiet():
+                        if sfx == " each month":
+                            x = Food(*[np.array([p, 2 * p]) for p in pattern], *lab)
+                        else:
+                            x = Food(*pattern, *lab)
+                        y = x.in_units_percent_fed()
+                        z = y.in_units_bil_kcals_thou_tons_thou_tons_per_month()
+                except BaseException as e:
+                    fail("conversion-rejected", f"partial quantity {pattern} '{sfx}' raised {classify(e)} ({fl})", s, flags=fl)
+                    continue
+                for n_, g, w, p, b in zip(("kcals", "fat", "protein"), (y.kcals, y.fat, y.protein), need, pattern,
+                                          (z.kcals, z.fat, z.protein)):
+                    first = float(np.asarray(g, dtype=float).ravel()[0])
+                    if rel(first, 100.0 * p / w) > TOL or rel(float(np.asarray(b, dtype=float).ravel()[0]), p) > TOL:
+                        fail("partial-quantity", f"quantity (kcals, fat, protein) = {pattern}{' (x1, x2) each month' if sfx == ' each month' else sfx}: "
+                             f"{n_} {p} converts to {first} percent fed (requirement {w} -> expected {100.0 * p / w}), back "
+                             f"{float(np.asarray(b, dtype=float).ravel()[0])} ({fl})", s, nutrient=n_, pattern=list(pattern), flags=fl)
+                        break
+    set_req(s, True, True)
+
+
 def run(payload):
     failures = []
     stats = {"pairs": 0, "triples": 0, "anchors": 0, "shape_cases": 0, "max_rel_err": 0.0, "distinct": 0}
@@ -160,6 +268,8 @@ def run(payload):
                         except BaseException as e:
                             fail("conversion-rejected", f"{nutrient}: integer-typed '{u}' -> '{v}' raised {classify(e)}", s, nutrient=nutrient, u=u, v=v)
                     if x.is_list_monthly():
+                        audit_collapse(nutrient, u, v, x, y, s, fail, stats)
+                    if x.is_list_monthly():
                         # one month taken out of a series (by index and by get_month): converting before or after must agree,
                         # in value and in the form (each month / per month / total) of the labels
                         j = rng.randrange(len(x.kcals))
@@ -202,6 +312,8 @@ def run(payload):
                 if e > TOL:
                     fail("triangle", f"{nutrient}: '{u}' -> '{v}' -> '{w}' differs from direct by {e:.3e} relative", s,
                          nutrient=nutrient, u=u, v=v, w=w)
+        if not light:
+            audit_small_and_partial(tables, s, fail, stats, rng)
         # anchors
         c = Food.conversions
         need = Food(c.billion_kcals_needed, c.thou_tons_fat_needed, c.thou_tons_protein_needed)
